@@ -51,6 +51,10 @@ class C05(Harness):
         for strat in ("direct", "multioutput", "recursive"):
             for sci in ("tabular-regressor", "time-series-regressor"):
                 out.append({"name": "%s-%s-exog2-k%d" % (strat, "tab" if sci[0] == "t" and sci[1] == "a" else "tsr", 2 if strat == "direct" else 1), "kind": "reduce", "strategy": strat, "scitype": sci, "exog": True, "nx": 2, "K": 2 if strat == "direct" else 1, "N": min(b["n_max"], 5), "cost": 3})
+        # the horizon given as one absolute ForecastingHorizon object; a refitting update moves the cutoff, so the same
+        # object means other relative steps at the second fit
+        for strat in ("direct", "multioutput", "dirrec"):
+            out.append({"name": "%s-tab-noexog-absfh-refit-k2" % strat, "kind": "reduce", "strategy": strat, "scitype": "tabular-regressor", "exog": False, "K": 2, "N": min(b["n_max"], 6), "absfh": True, "cost": 2})
         # integer-valued series (counts): the regressors' outputs are still arbitrary reals
         for strat in ("direct", "multioutput", "recursive", "dirrec"):
             out.append({"name": "%s-tab-noexog-int-k2" % strat, "kind": "reduce", "strategy": strat, "scitype": "tabular-regressor", "exog": False, "K": 2, "N": min(b["n_max"], 5), "int_series": True, "cost": 2})
@@ -70,6 +74,14 @@ class C05(Harness):
         increasing(ctx, hs, lo=1)
         ctx.assume(hs[-1] <= 4)
         inp = {"n": nn, "wl": int(wl), "fh": [int(h) for h in hs], "s0": ctx.fresh_int("s0"), "y": fresh_ints(ctx, "y", nn) if cell.get("int_series") else fresh_reals(ctx, "y", nn)}
+        if cell.get("absfh"):
+            # n counts the series after the update; the first fit sees n - m points and must be feasible itself
+            m = ctx.fresh_int("m")
+            ctx.assume((m >= 1) & (m <= 2))
+            inp["m"] = int(m)
+            if inp["wl"] + inp["m"] + inp["fh"][-1] > nn - inp["m"] or cell["strategy"] == "recursive":
+                ctx.assume(False)
+            return inp
         if cell["exog"]:
             nx = cell.get("nx", 1)
             inp["xs"] = [fresh_reals(ctx, "x%s" % ("" if j == 0 else j), nn) for j in range(nx)]
@@ -133,6 +145,16 @@ class C05(Harness):
         X = pd.DataFrame({"x%d" % j: col for j, col in enumerate(inp["xs"])}, index=idx) if cell["exog"] else None
         f = red.make_reduction(Stub(), strategy=cell["strategy"], window_length=inp["wl"], scitype=cell["scitype"])
         fh = np.array(inp["fh"])
+        if cell.get("absfh"):
+            FH = W.load("sktime.forecasting.base").ForecastingHorizon
+            m = inp["m"]
+            afh = FH(np.array([s0 + n - 1 + h for h in inp["fh"]]), is_relative=False)  # time points after the *updated* series
+            f.fit(y.iloc[: n - m], fh=afh)
+            del log[:]
+            f.update(y.iloc[n - m :], update_params=True)
+            fits = list(log)
+            pred = f.predict()
+            return {"rejected": False, "fits": fits, "index": L(pred.index), "values": L(pred.values), "cls": type(f).__name__}
         try:
             f.fit(y, X, fh=fh)
         except ValueError:
@@ -296,17 +318,17 @@ class C05(Harness):
             self._moving(P, inp, out, cell)
         if strat == "direct":
             for k in range(K):
-                P.eq("forecast-is-regressor-output", vals[k], self._uf("reg%d_%d" % (k + 1, nf(0)), win + xwin))
+                P.eq("forecast-is-regressor-output", vals[k], self._uf("reg%d_%d" % (fits[k]["id"], nf(0)), win + xwin))
         elif strat == "multioutput":
             for k in range(K):
-                P.eq("forecast-is-regressor-output", vals[k], self._uf("reg1_out%d_%d" % (k, nf(0)), win + xwin))
+                P.eq("forecast-is-regressor-output", vals[k], self._uf("reg%d_out%d_%d" % (fits[0]["id"], k, nf(0)), win + xwin))
         elif strat == "recursive":
             seq = list(win)
             xs_all = [list(col[n - wl :]) + list(fut) for col, fut in zip(xcols, inp.get("xfs") or [])]
             outs = []
             for i in range(hK):
                 feats = seq[i : i + wl] + [v for col in xs_all for v in col[i : i + wl]]
-                o = self._uf("reg1_%d" % nf(0), feats)
+                o = self._uf("reg%d_%d" % (fits[0]["id"], nf(0)), feats)
                 outs.append(o)
                 seq.append(o)
             for k, h in enumerate(fh):
@@ -314,7 +336,7 @@ class C05(Harness):
         else:  # dirrec
             seq = list(win)
             for k in range(K):
-                o = self._uf("reg%d_%d" % (k + 1, wl + k), seq)
+                o = self._uf("reg%d_%d" % (fits[k]["id"], wl + k), seq)
                 P.eq("recursive-feedback", vals[k], o)
                 seq.append(o)
 
